@@ -30,8 +30,9 @@ struct Event {
 fn spec(state: &Option<Vec<u8>>, op: &Op) -> (Option<Vec<u8>>, String) {
     let bulk = |v: &Vec<u8>| format!("b:{}", hex(v));
     match op.name {
-        "GET" | "FGET" | "PGET" => (state.clone(), state.as_ref().map(bulk).unwrap_or("nil".into())),
-        "SET" | "FSET" | "PSET" => (Some(op.vals[0].clone()), "ok".into()),
+        // (E… / ES… = the same command as a Lua script through EVAL / SCRIPT LOAD + EVALSHA)
+        "GET" | "FGET" | "PGET" | "EGET" | "ESGET" => (state.clone(), state.as_ref().map(bulk).unwrap_or("nil".into())),
+        "SET" | "FSET" | "PSET" | "ESET" | "ESSET" => (Some(op.vals[0].clone()), "ok".into()),
         // one item of a batched call
         "BGET" => (state.clone(), format!("m:[{}]", state.as_ref().map(bulk).unwrap_or("nil".into()))),
         "BSET" => (Some(op.vals[0].clone()), "m:[ok]".into()),
@@ -46,7 +47,7 @@ fn spec(state: &Option<Vec<u8>>, op: &Op) -> (Option<Vec<u8>>, String) {
             (Some(v), format!("i:{}", n))
         }
         "STRLEN" => (state.clone(), format!("i:{}", state.as_ref().map(|v| v.len()).unwrap_or(0))),
-        "INCR" => match state {
+        "INCR" | "EINCR" | "ESINCR" => match state {
             None => (Some(b"1".to_vec()), "i:1".into()),
             Some(v) => match std::str::from_utf8(v).ok().and_then(|s| s.parse::<i64>().ok()) {
                 None => (state.clone(), "e:2".into()),
@@ -138,6 +139,17 @@ fn val(rng: &mut Rng) -> Vec<u8> {
 }
 
 fn gen_op(rng: &mut Rng, class: &str, k: &[u8]) -> Op {
+    if class == "counter" {
+        // one counter hammered through every way of incrementing / reading it
+        return match rng.below(9) {
+            0 | 1 => Op::k("INCR", k),
+            2 | 3 => Op::k("EINCR", k),
+            4 | 5 => Op::k("ESINCR", k),
+            6 => Op::k(*rng.pick(&["GET", "EGET", "ESGET"]), k),
+            7 => Op::k("FGET", k),
+            _ => Op::new("BGET", vec![k.to_vec()], vec![]),
+        };
+    }
     let fast = match class {
         "generic" => false,
         "fast" => true,
@@ -152,8 +164,10 @@ fn gen_op(rng: &mut Rng, class: &str, k: &[u8]) -> Op {
         }
     } else {
         match rng.below(11) {
-            0 | 1 | 2 => Op::k("GET", k),
-            3 | 4 => Op::kv("SET", k, &val(rng)),
+            0 | 1 => Op::k("GET", k),
+            2 => Op::k(*rng.pick(&["EGET", "ESGET"]), k),
+            3 => Op::kv("SET", k, &val(rng)),
+            4 => Op::kv(*rng.pick(&["SET", "ESET", "ESSET"]), k, &val(rng)),
             5 => Op::kv("APPEND", k, &val(rng)),
             6 => Op::k("STRLEN", k),
             7 => Op::k("INCR", k),
@@ -168,23 +182,33 @@ fn pool() -> Vec<Vec<u8>> {
     (0..40).map(|i| format!("k{}", i).into_bytes()).collect()
 }
 
+/// plain keys plus the structured alphabet of C03 (tags, punctuation, high bytes, empty, long)
+fn wide_pool() -> Vec<Vec<u8>> {
+    let mut p = pool();
+    p.extend(crate::c03::special_keys().into_iter().map(|(_, k)| k));
+    p
+}
+
 fn mismatched(k: &[u8], n: usize, fixed: bool) -> bool {
     !fixed && h_str(std::str::from_utf8(k).unwrap(), n) != h_bytes(k, n)
 }
 
 fn random_case(rng: &mut Rng, fixed: bool) -> Case {
     let n = *rng.pick(&[1usize, 2, 4, 4, 8, 16]);
-    let class = *rng.pick(&["generic", "generic", "fast", "mixed", "mixed", "mixed-consistent"]);
-    let clients = rng.range(2, 8) as usize;
-    let nkeys = rng.range(1, 3) as usize;
+    let class = *rng.pick(&["generic", "generic", "fast", "mixed", "mixed", "mixed-consistent", "counter"]);
+    // (≤ 8 clients and ≤ 10 operations on a counter: the verified checker has no memoisation and a
+    // non-linearizable history must be searched exhaustively)
+    let clients = if class == "counter" { rng.range(4, 8) as usize } else { rng.range(2, 8) as usize };
+    let nkeys = if class == "counter" { 1 } else { rng.range(1, 3) as usize };
+    let base = if rng.chance(1, 3) { wide_pool() } else { pool() };
     let mut cand: Vec<Vec<u8>> = match class {
-        "mixed-consistent" => pool().into_iter().filter(|k| !mismatched(k, n, fixed)).collect(),
-        _ => pool(),
+        "mixed-consistent" => base.into_iter().filter(|k| !mismatched(k, n, fixed)).collect(),
+        _ => base,
     };
     rng.shuffle(&mut cand);
     let keys: Vec<Vec<u8>> = cand.into_iter().take(nkeys).collect();
     // ≤ 12 operations per key in total
-    let total = nkeys * rng.range(6, 12) as usize;
+    let total = if class == "counter" { rng.range(6, 10) as usize } else { nkeys * rng.range(6, 12) as usize };
     let mut programs: Vec<Vec<(Op, u8)>> = vec![Vec::new(); clients];
     let mut per_key_count: BTreeMap<Vec<u8>, usize> = BTreeMap::new();
     for i in 0..total {
@@ -196,7 +220,7 @@ fn random_case(rng: &mut Rng, fixed: bool) -> Case {
         *c += 1;
         // the batched path: small batches (1..4 distinct keys: gaps between the touched shards are
         // the norm) on the SAME keys as the other paths, padded with keys nobody else touches
-        if class != "generic" && rng.chance(1, 4) {
+        if class != "generic" && class != "counter" && rng.chance(1, 4) {
             let mut bk = vec![k.clone()];
             for _ in 0..rng.below(4) {
                 let extra = if rng.chance(1, 2) { keys[rng.below(keys.len() as u64) as usize].clone() } else { format!("pad{}", rng.below(30)).into_bytes() };
@@ -233,6 +257,30 @@ fn corpus(fixed: bool) -> Case {
         prog.push((Op::k("PGET", &k), 0));
     }
     Case { n: 4, class: "mixed", programs: vec![prog] }
+}
+
+/// scripts and structured keys, sequentially (ONE client): a value written through the fast path
+/// must be seen by EVAL and by EVALSHA of the same key (every Lua script is routed by KEYS[1]), and a
+/// key with a `{tag}` / punctuation / high bytes has one home whichever path carries the command
+fn corpus_scripts() -> Vec<Case> {
+    let mut cs = Vec::new();
+    for n in [4usize, 8] {
+        let mut prog = Vec::new();
+        for k in pool().into_iter().take(10).chain(crate::c03::special_keys().into_iter().map(|(_, k)| k)) {
+            prog.push((Op::kv("FSET", &k, b"v1"), 0));
+            prog.push((Op::k("ESGET", &k), 0));
+            prog.push((Op::k("EGET", &k), 0));
+            prog.push((Op::k("STRLEN", &k), 0));
+            prog.push((Op::kv("ESSET", &k, b"7"), 0));
+            prog.push((Op::k("FGET", &k), 0));
+            prog.push((Op::k("ESINCR", &k), 0));
+            prog.push((Op::k("EINCR", &k), 0));
+            prog.push((Op::k("INCR", &k), 0));
+            prog.push((Op::new("BGET", vec![k.clone()], vec![]), 0));
+        }
+        cs.push(Case { n, class: "scripts", programs: vec![prog] });
+    }
+    cs
 }
 
 /// the batched path, sequentially (ONE client): an acknowledged batched SET must be seen by the
@@ -337,7 +385,7 @@ fn judge(out: &mut Out, events: Vec<Event>, class: &'static str, n: usize, clien
             bad_keys.push(k.clone());
         }
         for (i, a) in ops.iter().enumerate() {
-            writes |= !matches!(a.op.name, "GET" | "FGET" | "PGET" | "BGET" | "STRLEN");
+            writes |= !matches!(a.op.name, "GET" | "FGET" | "PGET" | "BGET" | "EGET" | "ESGET" | "STRLEN");
             for b in ops.iter().skip(i + 1) {
                 let a_end = a.res.as_ref().map(|r| r.0).unwrap_or(usize::MAX);
                 let b_end = b.res.as_ref().map(|r| r.0).unwrap_or(usize::MAX);
@@ -370,7 +418,7 @@ fn judge(out: &mut Out, events: Vec<Event>, class: &'static str, n: usize, clien
                 "{} shards, {} clients: the history of key(s) {} admits no linearization",
                 n,
                 clients,
-                bad_keys.iter().map(|k| String::from_utf8_lossy(k).to_string()).collect::<Vec<_>>().join(",")
+                bad_keys.iter().map(|k| { let t = String::from_utf8_lossy(k).to_string(); if t.chars().count() > 24 { format!("{}…({} bytes)", t.chars().take(24).collect::<String>(), k.len()) } else { format!("{:?}", t) } }).collect::<Vec<_>>().join(",")
             ),
             json!({"shards": n, "class": class, "history": text}),
         );
@@ -513,6 +561,9 @@ pub fn run(a: &Args) {
         for c in corpus_batch() {
             run_case(&mut out, c, fixed).await;
         }
+        for c in corpus_scripts() {
+            run_case(&mut out, c, fixed).await;
+        }
         // cancellations: the fixed case first, then a few random ones
         cancel_case(&mut out, &mut Rng::new(0xC02), fixed, true).await;
         for i in 0..a.n {
@@ -524,5 +575,5 @@ pub fn run(a: &Args) {
             }
         }
     });
-    out.finish("case = one concurrent history: 2..8 client tasks (multi-thread tokio runtime, seeded random yields) issue 6..12 single-key string commands per key over 1..3 keys through execute / fast_* / pooled_fast_* / fast_batch_get_pipeline / fast_batch_set_pipeline (batches of 1..4 keys, every item one single-key operation with the call's interval) of a real ShardedActorState with 1, 2, 4, 8 or 16 shards; invocation/response stamped by a global atomic counter. Schedules are SAMPLED (the seed fixes programs and yield patterns, not the interleaving). plus cancellation histories (a slow script keeps one shard busy, pooled requests to it are abandoned by a timeout while queued and stay pending, then 4..8 single-writer clients run > pool-size pooled SET/GET rounds during and after the stall; every reply is also checked directly against its request). distinct by the stamped history text; non-trivial iff two operations on one key overlap in real time and the key is written, or an operation was abandoned");
+    out.finish("case = one concurrent history: 2..8 client tasks (multi-thread tokio runtime, seeded random yields) issue 6..12 single-key string commands per key over 1..3 keys through execute (plain commands and the same commands as Lua scripts via EVAL and via SCRIPT LOAD + EVALSHA) / fast_* / pooled_fast_* / fast_batch_get_pipeline / fast_batch_set_pipeline (batches of 1..4 keys, every item one single-key operation with the call's interval) of a real ShardedActorState with 1, 2, 4, 8 or 16 shards; invocation/response stamped by a global atomic counter. Schedules are SAMPLED (the seed fixes programs and yield patterns, not the interleaving). plus cancellation histories (a slow script keeps one shard busy, pooled requests to it are abandoned by a timeout while queued and stay pending, then 4..8 single-writer clients run > pool-size pooled SET/GET rounds during and after the stall; every reply is also checked directly against its request). distinct by the stamped history text; non-trivial iff two operations on one key overlap in real time and the key is written, or an operation was abandoned");
 }
